@@ -70,3 +70,24 @@ def cone_member(Ap, bp, lb, ub, b):
         return None, None, np.inf
     t = r.x[n]
     return r.x[:n] / t, float(t), float(r.x[-1])
+
+
+def cone_max_alpha(Ap, bp, lb, ub, nhat, d):
+    """largest alpha with nhat + alpha*d in the cone over {Ap x + bp : lb<=x<=ub}; (alpha, x, t)"""
+    m, n = Ap.shape
+    nv = n + 2  # z, t, alpha
+    c = np.zeros(nv); c[-1] = -1
+    A_eq = np.zeros((m, nv)); A_eq[:, :n] = Ap; A_eq[:, n] = bp; A_eq[:, n + 1] = -d
+    b_eq = nhat
+    A_ub, b_ub = [], []
+    for i in range(n):
+        row = np.zeros(nv); row[i] = -1; row[n] = lb[i]; A_ub.append(row); b_ub.append(0.0)
+        row = np.zeros(nv); row[i] = 1; row[n] = -ub[i]; A_ub.append(row); b_ub.append(0.0)
+    bounds = [(None, None)] * n + [(0, None), (0, None)]
+    r = linprog(c, A_ub=np.array(A_ub), b_ub=np.array(b_ub), A_eq=A_eq, b_eq=b_eq, bounds=bounds, method="highs")
+    if r.status == 3:
+        return np.inf, None, None
+    if r.status != 0:
+        return None, None, None
+    t = r.x[n]
+    return float(r.x[-1]), (r.x[:n] / t if t > 0 else None), float(t)
